@@ -966,12 +966,12 @@ type oCase struct {
 
 func shQuote(s string) string { return "'" + strings.ReplaceAll(s, "'", `'\''`) + "'" }
 
-const dumpLine = `echo "D x=${x-U} y=${y-U} z=${z-U} w=${w-U} u=${u-U} t=${t-U} i=${i-U}"`
+const dumpLine = `echo "D x=${x-U} y=${y-U} z=${z-U} w=${w-U} u=${u-U} t=${t-U} i=${i-U} j=${j-U}"`
 
 func dumpOf(env refEnv) string {
 	var sb strings.Builder
 	sb.WriteString("D")
-	for _, n := range []string{"x", "y", "z", "w", "u", "t", "i"} {
+	for _, n := range []string{"x", "y", "z", "w", "u", "t", "i", "j"} {
 		b := env[n]
 		if b == nil {
 			sb.WriteString(" " + n + "=U")
@@ -1024,6 +1024,172 @@ func usesNonLit(n *node, env refEnv, seen map[string]bool) bool {
 		return false
 	}
 	return usesNonLit(n.x, env, seen) || usesNonLit(n.y, env, seen) || usesNonLit(n.z, env, seen)
+}
+
+type loopSpec struct{ ini, cond, post *node }
+
+// genLoopHeader: simple = small literal bounds and a stepping post expression (so that break
+// conditions are actually reached); otherwise arbitrary generated sub-expressions.
+func genLoopHeader(r *rand.Rand, v string, simple bool) *loopSpec {
+	iv := func() *node { return &node{k: kVar, text: v} }
+	var a, bnd *node
+	cmp := hx.Pick(r, []string{"<", "<=", "!=", ">", ">="})
+	if simple {
+		a = litNode(r, int64(r.IntN(3)))
+		bnd = litNode(r, int64(2+r.IntN(5)))
+		cmp = hx.Pick(r, []string{"<", "<=", "<", "!="})
+	} else {
+		a = gen(r, 1+r.IntN(2), false)
+		bnd = gen(r, 1+r.IntN(2), false)
+	}
+	l := &loopSpec{
+		ini:  &node{k: kAsg, op: "=", x: iv(), y: a},
+		cond: &node{k: kBin, op: cmp, x: iv(), y: bnd},
+	}
+	switch r.IntN(6) {
+	case 0:
+		l.post = &node{k: kInc, op: "++", post: true, x: iv()}
+	case 1:
+		l.post = &node{k: kInc, op: "++", post: false, x: iv()}
+	case 2:
+		if simple {
+			l.post = &node{k: kAsg, op: "+=", x: iv(), y: litNode(r, int64(1+r.IntN(2)))}
+		} else {
+			l.post = &node{k: kInc, op: "--", post: r.IntN(2) == 0, x: iv()}
+		}
+	case 3:
+		op := hx.Pick(r, []string{"+=", "-=", "*="})
+		if simple {
+			op = "+="
+		}
+		l.post = &node{k: kAsg, op: op, x: iv(), y: litNode(r, int64(1+r.IntN(3)))}
+	case 4:
+		// a second side effect in the post expression, visible after the loop
+		l.post = &node{k: kBin, op: ",", x: &node{k: kInc, op: "++", post: true, x: iv()}, y: genSideEffect(r, simple)}
+	default:
+		if simple {
+			l.post = &node{k: kAsg, op: "=", x: iv(), y: &node{k: kBin, op: "+", x: iv(), y: litNode(r, 1)}}
+		} else {
+			l.post = &node{k: kAsg, op: "=", x: iv(), y: &node{k: kBin, op: "+", x: iv(), y: gen(r, 1, false)}}
+		}
+	}
+	return l
+}
+
+func genSideEffect(r *rand.Rand, simple bool) *node {
+	if simple {
+		return &node{k: kAsg, op: "+=", x: &node{k: kVar, text: hx.Pick(r, []string{"u", "t"})}, y: litNode(r, int64(1+r.IntN(10)))}
+	}
+	return gen(r, 2, false)
+}
+
+// the condition under which the body does its break / continue
+func genBrkCond(r *rand.Rand, v string) *node {
+	iv := &node{k: kVar, text: v}
+	switch r.IntN(5) {
+	case 0:
+		return &node{k: kBin, op: hx.Pick(r, []string{">=", ">", "!=", "<"}), x: iv, y: litNode(r, int64(r.IntN(5)))}
+	case 1:
+		return &node{k: kBin, op: "==", x: &node{k: kBin, op: "%", x: iv, y: litNode(r, 2)}, y: litNode(r, int64(r.IntN(2)))}
+	default:
+		return &node{k: kBin, op: "==", x: iv, y: litNode(r, int64(r.IntN(6)))}
+	}
+}
+
+// simLoops runs the loop program on the reference evaluator (bash's rule): break leaves the loop
+// WITHOUT evaluating the post expression, continue evaluates it, break 2 / continue 2 act on the
+// outer loop.  false = dropped (error, platform-defined value, or too many iterations).
+func simLoops(env refEnv, outer, inner *loopSpec, brk *node, act string, want *strings.Builder) bool {
+	bodies := 0
+	ev := func(n *node) (*big.Int, bool) {
+		z, e := env.eval(n, 0)
+		return z, e == rOK
+	}
+	val := func(v string) string {
+		if b := env[v]; b != nil {
+			return b.text
+		}
+		return ""
+	}
+	if _, ok := ev(outer.ini); !ok {
+		return false
+	}
+outerLoop:
+	for {
+		c, ok := ev(outer.cond)
+		if !ok {
+			return false
+		}
+		if c.Sign() == 0 {
+			break
+		}
+		if bodies++; bodies > 24 {
+			return false
+		}
+		if inner == nil {
+			hit := false
+			if brk != nil {
+				b, ok := ev(brk)
+				if !ok {
+					return false
+				}
+				hit = b.Sign() != 0
+			}
+			if hit && strings.HasPrefix(act, "break") {
+				break outerLoop
+			}
+			if !hit {
+				want.WriteString("i=" + val("i") + "\n")
+			}
+		} else {
+			if _, ok := ev(inner.ini); !ok {
+				return false
+			}
+			signal := ""
+		innerLoop:
+			for {
+				c, ok := ev(inner.cond)
+				if !ok {
+					return false
+				}
+				if c.Sign() == 0 {
+					break
+				}
+				if bodies++; bodies > 24 {
+					return false
+				}
+				b, ok := ev(brk)
+				if !ok {
+					return false
+				}
+				if b.Sign() != 0 {
+					switch act {
+					case "break":
+						break innerLoop
+					case "break 2", "continue 2":
+						signal = act
+						break innerLoop
+					}
+					// continue: falls through to the post expression
+				} else {
+					want.WriteString("i=" + val("i") + " j=" + val("j") + "\n")
+				}
+				if _, ok := ev(inner.post); !ok {
+					return false
+				}
+			}
+			if signal == "break 2" {
+				break outerLoop
+			}
+			if signal == "" {
+				want.WriteString("o=" + val("i") + "\n")
+			}
+		}
+		if _, ok := ev(outer.post); !ok {
+			return false
+		}
+	}
+	return true
 }
 
 func genOracle(r *rand.Rand, i int) *oCase {
@@ -1123,50 +1289,43 @@ func genOracle(r *rand.Rand, i int) *oCase {
 		sb.WriteString("echo \"st=$?\"\n")
 		want.WriteString(fmt.Sprintf("st=%d\n", st))
 	case cFor:
-		// for (( i = A ; i CMP B ; POST )) with a simulated bound on the number of iterations
-		a := gen(r, 1+r.IntN(2), false)
-		ini := &node{k: kAsg, op: "=", x: &node{k: kVar, text: "i"}, y: a}
-		cmp := hx.Pick(r, []string{"<", "<=", "!=", ">", ">="})
-		cond := &node{k: kBin, op: cmp, x: &node{k: kVar, text: "i"}, y: gen(r, 1+r.IntN(2), false)}
-		var post *node
-		iv := &node{k: kVar, text: "i"}
-		switch r.IntN(6) {
-		case 0:
-			post = &node{k: kInc, op: "++", post: true, x: iv}
+		// for (( i = A ; i CMP B ; POST )), simulated by the reference evaluator with a bound on the
+		// number of iterations.  Variants: plain body; body that leaves or restarts the loop with
+		// break / continue when a condition on the loop variable holds; two nested loops whose inner
+		// body does break [N] / continue [N].  The loop variables are read AFTER the loop (dump).
+		// Every body ends in a succeeding command (KF-C26-3: a failing last command stops the loop).
+		outer := genLoopHeader(r, "i", r.IntN(2) == 0)
+		c.exprs = []*node{outer.ini, outer.cond, outer.post}
+		variant := r.IntN(3)
+		var inner *loopSpec
+		var brk *node
+		act := ""
+		switch variant {
 		case 1:
-			post = &node{k: kInc, op: "++", post: false, x: iv}
+			brk = genBrkCond(r, "i")
+			act = hx.Pick(r, []string{"break", "break", "continue", "break 1", "continue 1"})
+			c.exprs = append(c.exprs, brk)
 		case 2:
-			post = &node{k: kInc, op: "--", post: r.IntN(2) == 0, x: iv}
-		case 3:
-			post = &node{k: kAsg, op: hx.Pick(r, []string{"+=", "-=", "*="}), x: iv, y: litNode(r, int64(1+r.IntN(3)))}
-		case 4:
-			post = &node{k: kBin, op: ",", x: &node{k: kInc, op: "++", post: true, x: iv}, y: gen(r, 2, false)}
-		default:
-			post = &node{k: kAsg, op: "=", x: iv, y: &node{k: kBin, op: "+", x: iv, y: gen(r, 1, false)}}
+			inner = genLoopHeader(r, "j", true)
+			brk = genBrkCond(r, hx.Pick(r, []string{"i", "j", "j"}))
+			act = hx.Pick(r, []string{"break", "break 2", "continue", "continue 2", "break 2", "continue 2"})
+			c.exprs = append(c.exprs, inner.ini, inner.cond, inner.post, brk)
 		}
-		c.exprs = []*node{ini, cond, post}
-		if _, er := renv.eval(ini, 0); er != rOK {
+		if !simLoops(renv, outer, inner, brk, act, &want) {
 			return nil
 		}
-		iters := 0
-		for {
-			z, er := renv.eval(cond, 0)
-			if er != rOK {
-				return nil
-			}
-			if z.Sign() == 0 {
-				break
-			}
-			iters++
-			if iters > 8 {
-				return nil
-			}
-			want.WriteString("i=" + renv["i"].text + "\n")
-			if _, er := renv.eval(post, 0); er != rOK {
-				return nil
-			}
+		hdr := func(l *loopSpec) string {
+			return "for (( " + text(l.ini, tight) + " ; " + text(l.cond, tight) + " ; " + text(l.post, tight) + " ))"
 		}
-		sb.WriteString("for (( " + text(ini, tight) + " ; " + text(cond, tight) + " ; " + text(post, tight) + " )); do echo \"i=$i\"; done\n")
+		switch variant {
+		case 0:
+			sb.WriteString(hdr(outer) + "; do echo \"i=$i\"; done\n")
+		case 1:
+			sb.WriteString(hdr(outer) + "; do\n  if (( " + text(brk, tight) + " )); then " + act + "; fi\n  echo \"i=$i\"\ndone\n")
+		case 2:
+			sb.WriteString(hdr(outer) + "; do\n  " + hdr(inner) + "; do\n    if (( " + text(brk, tight) + " )); then " + act +
+				"; fi\n    echo \"i=$i j=$j\"\n  done\n  echo \"o=$i\"\ndone\n")
+		}
 		sb.WriteString("echo \"st=$?\"\n")
 		want.WriteString("st=0\n")
 	}
@@ -1208,6 +1367,9 @@ func pinnedOracle() []*oCase {
 		mk("", "x=y\ny=z\nz=5\necho \"v=$(( x * 2 ))\"\necho \"st=$?\"\n"),
 		mk("", "(( 1 / 0 ))\necho \"st=$?\"\nlet 1%0\necho \"st=$?\"\n(( 2 ** -1 ))\necho \"st=$?\"\n(( 0 && 1 / 0 ))\necho \"st=$?\"\n(( 1 || 1 / 0 ))\necho \"st=$?\"\n"),
 		mk("", "for (( i = 0 , x = 10 ; i < 3 ; i++ , x -= 2 )); do echo \"i=$i x=$x\"; done\necho \"st=$?\"\n"),
+		mk("", "for (( i = 0 ; i < 10 ; i++ )); do if (( i == 3 )); then break; fi; done\necho \"st=$? $i\"\n"),
+		mk("", "n=0\nfor (( i = 0 ; ; i++ , n += 10 )); do if (( i >= 2 )); then break; fi; done\necho \"st=$? $i $n\"\n"),
+		mk("", "for (( i = 0 ; i < 3 ; i++ )); do for (( j = 0 ; j < 3 ; j++ )); do if (( j == 1 )); then continue 2; fi; if (( i == 2 )); then break 2; fi; echo \"$i $j\"; done; done\necho \"st=$? $i $j\"\n"),
 	}
 }
 
@@ -1239,7 +1401,7 @@ func runInterp(script string) (out string, panicked bool, msg string, hang bool)
 	}
 }
 
-const allVars = "x y z w u t i a v"
+const allVars = "x y z w u t i j a v"
 
 func runBash(dir string, cases []*oCase) ([]string, error) {
 	var sb strings.Builder
